@@ -8,6 +8,7 @@ import (
 	"path/filepath"
 	"strconv"
 
+	"vh/dict"
 	"vh/fw"
 	_ "vh/props"
 )
@@ -28,8 +29,27 @@ func main() {
 		rundir  = flag.String("rundir", "", "scratch directory")
 		workers = flag.Int("workers", 16, "worker processes")
 		list    = flag.Bool("list", false, "list property ids")
+		mkdict  = flag.String("mkdict", "", "print the value dictionary of the library tree at this path and exit")
+		dbase   = flag.String("dictbase", "", "with --mkdict: baseline dictionary; entries it lacks are marked novel")
 	)
 	flag.Parse()
+	if *mkdict != "" {
+		ints, toks, err := dict.Extract(*mkdict)
+		if err != nil {
+			fmt.Fprintln(os.Stderr, "mkdict:", err)
+			os.Exit(3)
+		}
+		var base *os.File
+		if *dbase != "" {
+			base, _ = os.Open(*dbase)
+		}
+		if base != nil {
+			dict.Write(os.Stdout, ints, toks, base)
+		} else {
+			dict.Write(os.Stdout, ints, toks, nil)
+		}
+		return
+	}
 	if *list {
 		for _, id := range fw.IDs() {
 			fmt.Println(id)
